@@ -26,7 +26,7 @@ func ImportToX(e *env.Env) {
 			return true
 		}
 		if rv.Kind() == reflect.String {
-			s := strings.ToLower(v.(string))
+			s := strings.ToLower(rv.String())
 			if s == "y" || s == "yes" {
 				return true
 			}
@@ -55,17 +55,17 @@ func ImportToX(e *env.Env) {
 			return rv.Convert(nt).Int()
 		}
 		if rv.Kind() == reflect.String {
-			i, err := strconv.ParseInt(v.(string), 10, 64)
+			i, err := strconv.ParseInt(rv.String(), 10, 64)
 			if err == nil {
 				return i
 			}
-			f, err := strconv.ParseFloat(v.(string), 64)
+			f, err := strconv.ParseFloat(rv.String(), 64)
 			if err == nil {
 				return int64(f)
 			}
 		}
 		if rv.Kind() == reflect.Bool {
-			if v.(bool) {
+			if rv.Bool() {
 				return 1
 			}
 		}
@@ -82,13 +82,13 @@ func ImportToX(e *env.Env) {
 			return rv.Convert(nt).Float()
 		}
 		if rv.Kind() == reflect.String {
-			f, err := strconv.ParseFloat(v.(string), 64)
+			f, err := strconv.ParseFloat(rv.String(), 64)
 			if err == nil {
 				return f
 			}
 		}
 		if rv.Kind() == reflect.Bool {
-			if v.(bool) {
+			if rv.Bool() {
 				return 1.0
 			}
 		}
